@@ -120,7 +120,7 @@ def order_instances(terms, extra=()):
     them can never make a false goal provable; nothing is instantiated beyond the terms at hand."""
     acc, seen = {}, {}
     for t in list(terms) + list(extra):
-        _apps(t.zr() if isinstance(t, Num) else t, ("exp", "log", "sqrt", "pow", "cpow_re"), acc, seen)
+        _apps(t.zr() if isinstance(t, Num) else t, ("exp", "log", "sqrt", "pow", "cpow_re", "gamma"), acc, seen)
     out = []
     ex, lg = acc.get("exp", []), acc.get("log", [])
     EXP, LOG = _uf("exp"), _uf("log")
@@ -143,7 +143,7 @@ def order_instances(terms, extra=()):
     for t in acc.get("sqrt", []):
         out.append(z3.Implies(t.arg(0) > 0, t > 0))
         out.append(z3.Implies(t.arg(0) >= 0, t * t == t.arg(0)))
-    for nm in ("pow", "cpow_re"):
+    for nm in ("pow", "cpow_re", "gamma"):      # Gamma is positive on the positive axis
         for t in acc.get(nm, []):
             out.append(z3.Implies(t.arg(0) > 0, t > 0))
     return out
